@@ -9,6 +9,7 @@ import Driver.Tally
 import Driver.Chain
 import Driver.Valset
 import Driver.Authz
+import Driver.RepStake
 import Driver.Oracle
 import Driver.Claim
 open Driver
@@ -32,6 +33,7 @@ def dispatch (fam : String) : Option (List String → String → Option Res) :=
   | "proposal" => some runProposal
   | "valsetchain" => some runValsetChain
   | "authz" => some runAuthz
+  | "repstake" => some runRepStake
   | "claim" => some runClaim
   | "oracle" => some runOracle
   | "oracle7" => some runOracle7
